@@ -17,7 +17,7 @@ LEVEL = "fault_enumeration"
 RULE = ("writer subprocess (harness problem + SqliteDataStore in default thread-safe mode; scenarios: serial batch, "
         "3-worker batch, NSGA-II N=4 G=3, EpsMOEA and OMOPSO N=4 G=2; small and 8 KB payloads) killed without clean-up at a crash point counted from "
         "the moment the store constructor returned: (A) os._exit inside the k-th objective call, (B) os._exit "
-        "before/after the j-th SQL statement or commit (sqlite3.connect factory installed in the writer), (C) SIGKILL "
+        "before/after the j-th SQL statement or commit (sqlite3.connect factory installed in the writer), (F) os._exit before/after the j-th Python-level remove/rename/replace/truncate of the database files (1 MB store), (A/B) also with a harness-owned clock on which every model evaluation takes 6 s or 700 s, (C) SIGKILL "
         "at the N-th pwrite64 on the database/journal via strace fault injection, (D) SIGKILL after a drawn delay, (E) the j-th statement, if it is a synchronisation's upsert, fails once with 'database is locked' (sqlite's answer after its busy timeout) and the writer is killed when that synchronisation call has returned; a "
         "fresh reader process opens the file through ProblemViewDataStore. Oracle: reader succeeds, metadata intact, "
         "every row equals one version the writer attempted for that id and is not older than the last acknowledged "
@@ -57,11 +57,11 @@ def _read_log(path):
     return recs
 
 
-def run_writer(d, scenario, payload, inject, slow_ms=0, strace_when=None, kill_after=None):
+def run_writer(d, scenario, payload, inject, slow_ms=0, strace_when=None, kill_after=None, model_s=0.0):
     db = os.path.join(d, "store.sqlite")
     log = os.path.join(d, "side.log")
     spec = {"root": _root(), "db": db, "log": log, "scenario": scenario, "payload": payload, "inject": inject,
-            "slow_ms": slow_ms}
+            "slow_ms": slow_ms, "model_s": model_s}
     cmd = [PY, WRITER, json.dumps(spec)]
     if strace_when is not None:
         cmd = ["strace", "-f", "-o", os.path.join(d, "strace.out"), "-P", db, "-P", db + "-journal",
@@ -209,22 +209,22 @@ def _cache_put(key, val):
             pass
 
 
-def dry_run(scenario, payload):
-    key = ["dry", _root(), scenario, payload]
+def dry_run(scenario, payload, model_s=0.0):
+    key = ["dry", _root(), scenario, payload] + ([model_s] if model_s else [])
     hit, val = _cache_get(key)
     if hit:
         return val
     if True:
         d = tempfile.mkdtemp(prefix="c11dry-")
         try:
-            db, log, rc = run_writer(d, scenario, payload, None)
+            db, log, rc = run_writer(d, scenario, payload, None, model_s=model_s)
             recs = _read_log(log)
             counts = [r for r in recs if r["e"] == "COUNTS"]
             if rc != 0 or not counts:
                 raise HarnessError("dry run of scenario %s failed (exit %r)" % (scenario, rc))
             view = run_reader(db)
             judge("dry-run", recs, view, "clean run of %s" % scenario)
-            val = {"sql": counts[0]["sql"], "obj": counts[0]["obj"],
+            val = {"sql": counts[0]["sql"], "obj": counts[0]["obj"], "fs": counts[0].get("fs", 0),
                    "tries": sum(1 for r in recs if r["e"] == "TRY")}
             _cache_put(key, val)
         finally:
@@ -270,19 +270,31 @@ def strace_points(scenario, payload):
 
 def check_point(case):
     sc, payload, inj = case["scenario"], case["payload"], case["inject"]
-    dry = dry_run(sc, payload)
+    ms = case.get("model_s") or 0.0
+    dry = dry_run(sc, payload, ms)
     d = tempfile.mkdtemp(prefix="c11-")
     try:
         kind = inj["kind"]
         where = "scenario %s/%s, crash %r" % (sc, payload, inj)
         if kind == "A":
             k = 1 + inj["k"] % dry["obj"]
-            db, log, rc = run_writer(d, sc, payload, {"kind": "A", "k": k})
-            where = "scenario %s/%s, _exit in objective call %d of %d" % (sc, payload, k, dry["obj"])
+            db, log, rc = run_writer(d, sc, payload, {"kind": "A", "k": k}, model_s=ms)
+            where = "scenario %s/%s%s, _exit in objective call %d of %d" % (
+                sc, payload, ", every model evaluation takes %g s on the (harness-owned) clock" % ms if ms else "", k,
+                dry["obj"])
         elif kind == "B":
             j = 1 + inj["j"] % dry["sql"]
-            db, log, rc = run_writer(d, sc, payload, {"kind": "B", "j": j, "phase": inj["phase"]})
-            where = "scenario %s/%s, _exit %s SQL event %d of %d" % (sc, payload, inj["phase"], j, dry["sql"])
+            db, log, rc = run_writer(d, sc, payload, {"kind": "B", "j": j, "phase": inj["phase"]}, model_s=ms)
+            where = "scenario %s/%s%s, _exit %s SQL event %d of %d" % (sc, payload, " (model %g s)" % ms if ms else "",
+                                                                       inj["phase"], j, dry["sql"])
+        elif kind == "F":
+            if not dry.get("fs"):
+                # the writer performs no Python-level file operation on the database after creating it
+                return {"nt": False, "classes": ["inj-F", "no-file-operations", sc, payload]}
+            j = 1 + inj["j"] % dry["fs"]
+            db, log, rc = run_writer(d, sc, payload, {"kind": "F", "j": j, "phase": inj["phase"]}, model_s=ms)
+            where = "scenario %s/%s, _exit %s file operation %d of %d on the database files" % (
+                sc, payload, inj["phase"], j, dry["fs"])
         elif kind == "E":
             j = 1 + inj["j"] % dry["sql"]
             db, log, rc = run_writer(d, sc, payload, {"kind": "E", "j": j})
@@ -307,12 +319,12 @@ def check_point(case):
     died = not info["done"]
     nt = died and info["acks"] >= 1 and info["tries"] < dry["tries"] + (3 if sc == "parallel" else 0)
     return {"nt": nt, "classes": ["inj-" + kind, sc, payload, "died" if died else "survived",
-                                  "mid-history" if nt else "edge"]}
+                                  "mid-history" if nt else "edge"] + (["slow-model-clock"] if ms else [])}
 
 
 @st.composite
 def points(draw):
-    kind = draw(st.sampled_from(["A", "B", "B", "C", "C", "D", "E"]))
+    kind = draw(st.sampled_from(["A", "A", "B", "B", "C", "C", "D", "E", "F"]))
     if kind == "A":
         inj = {"kind": "A", "k": draw(st.integers(0, 200))}
     elif kind == "B":
@@ -321,10 +333,18 @@ def points(draw):
         inj = {"kind": "E", "j": draw(st.integers(0, 2000))}
     elif kind == "C":
         inj = {"kind": "C", "n": draw(st.integers(0, 5000))}
+    elif kind == "F":
+        # a store that has grown beyond a megabyte (128 KB of custom data per design) at the end of an NSGA-II run
+        return {"scenario": "nsga2", "payload": "huge", "inject": {"kind": "F", "j": draw(st.integers(0, 50)),
+                                                                    "phase": draw(st.sampled_from(["before", "after"]))}}
     else:
         inj = {"kind": "D", "ms": draw(st.floats(0.0, 80.0))}
-    return {"scenario": draw(st.sampled_from(SCENARIOS)), "payload": draw(st.sampled_from(["small", "big"])),
+    case = {"scenario": draw(st.sampled_from(SCENARIOS)), "payload": draw(st.sampled_from(["small", "big"])),
             "inject": inj}
+    if kind in ("A", "B") and draw(st.integers(0, 2)) == 0:
+        # an expensive model: each evaluation takes 6 s (or 700 s, beyond the default time_out) on the harness-owned clock
+        case["model_s"] = draw(st.sampled_from([6.0, 6.0, 700.0]))
+    return case
 
 
 def all_points(tier):
@@ -344,6 +364,17 @@ def all_points(tier):
             if pts is not None:
                 for n in range(pts[1] - pts[0] + 1):
                     yield {"scenario": sc, "payload": payload, "inject": {"kind": "C", "n": n}}
+    for sc in ("serial", "nsga2"):
+        for ms in (6.0, 700.0):
+            dry = dry_run(sc, "small", ms)
+            for k in range(dry["obj"]):
+                yield {"scenario": sc, "payload": "small", "inject": {"kind": "A", "k": k}, "model_s": ms}
+            for j in range(dry["sql"]):
+                yield {"scenario": sc, "payload": "small", "inject": {"kind": "B", "j": j, "phase": "after"}, "model_s": ms}
+    dry = dry_run("nsga2", "huge")
+    for j in range(dry.get("fs", 0)):
+        for ph in ("before", "after"):
+            yield {"scenario": "nsga2", "payload": "huge", "inject": {"kind": "F", "j": j, "phase": ph}}
 
 
 CLAUSES = [
